@@ -3,8 +3,8 @@
 import json
 CHECKS = {
  "C01": dict(level="model_checking", ref="DESIGN.md §5 C01", thorough=True,
-   text="explicit-state enumeration of every (schema, JSON document) state up to schema weight 4 over the core alphabet x the small JSON universe (thorough: same weight, larger document universe); every state is judged by the three-valued reference matcher R (RFC 8610 semantics, don't-care where the text is open) and replayed on the real JSONValidator; model traces validated against the implementation = every state",
-   note="trusts R (mc/src/refmodel.rs) as the reading of RFC 8610 sections 2-3; nothing is claimed outside the alphabet/weight bound; three recorded defects are attributed by semantic patterns (known_findings.jsonl)",
+   text="explicit-state enumeration of every (schema, JSON document) state up to schema weight 4 over the core alphabet x the small JSON universe (thorough: same weight, larger document universe), plus a map family (every map of 2-3 members / two alternatives over a 14-member alphabet of literal-keyed, cut, table and group-reference members x all objects over keys a-d); every state is judged by the three-valued reference matcher R (RFC 8610 semantics, don't-care where the text is open) and replayed on the real JSONValidator; model traces validated against the implementation = every state",
+   note="trusts R (mc/src/refmodel.rs) as the reading of RFC 8610 sections 2-3; nothing is claimed outside the alphabet/weight bound; three recorded defects are attributed by semantic patterns, two of them additionally on committed state lists under known/ (known_findings.jsonl)",
    tech="bounded-exhaustive explicit-state enumeration + reference model conformance"),
  "C11": dict(level="model_checking", ref="DESIGN.md §5 C11", thorough=False,
    text="every byte string of length <= 3 (plus structured longer families: every encoding with <= 2 deviations of a CBOR value universe, all prefixes) is fed to decode_cbor and compared with an independent RFC 8949 reference decoder (well-formedness, value, consumed length); exhaustive within the bound",
